@@ -350,6 +350,7 @@ func (FramesFaults) Execute(pl engine.Plan, c *engine.RunCtx) *engine.Failure {
 		if enumerated {
 			st.Inc("probe.C07.trunc_sweep_enumerated")
 		}
+		reusedDest := map[string]proto.Message{}
 		for _, k := range pts {
 			for pi, pol := range p.Policies {
 				for _, piggy := range []bool{false, true} {
@@ -366,6 +367,16 @@ func (FramesFaults) Execute(pl engine.Plan, c *engine.RunCtx) *engine.Failure {
 					done := false
 					for i := 0; i < len(frames) && !done; i++ {
 						msg := frames[i].spec.Empty()
+						if pi == 1 {
+							// second policy: ONE destination per kind for the whole sweep — it
+							// has usually just been through a FAILED Unmarshal (the previous
+							// cut), and must still decode the next complete frame correctly
+							if d, ok := reusedDest[frames[i].spec.Kind]; ok {
+								msg = d
+							} else {
+								reusedDest[frames[i].spec.Kind] = msg
+							}
+						}
 						n, ver, err, pan, consumed := callSrc(src, msg)
 						if pan != nil {
 							return livenessOrPanic("C07.cut", step, pan, what)
